@@ -404,11 +404,3 @@ func c12InputDefaults(c *core.Ctx, mem bool, bound int) int {
 	}
 	return n
 }
-
-func deepCopyVars(v map[string]interface{}) map[string]interface{} {
-	if v == nil {
-		return nil
-	}
-	m, _ := deepCopy(v).(map[string]interface{})
-	return m
-}
